@@ -123,7 +123,8 @@ PROPS = {
                    f"{BT}._handle_status_set_power_result", f"{BT}._run",
                    f"{CSM}._blocking_status:BlockingStatus.block", f"{CSM}._blocking_status:BlockingStatus.unblock",
                    f"{CSM}._blocking_status:BlockingStatus.is_blocked",
-                   f"{CSM}._component_status:ComponentPoolStatus.get_working_components"],
+                   f"{CSM}._component_status:ComponentPoolStatus.get_working_components",
+                   "frequenz.sdk.microgrid._power_distributing._component_pool_status_tracker:ComponentPoolStatusTracker._update_status"],
         lemmas=[],
         bounded=[],
         level="proof",
@@ -140,7 +141,7 @@ PROPS = {
                      "yields items of its five sources in any order and number; selected_from identifies the producing source): "
                      "loop invariant + per-iteration transition clauses (dispatch, staleness guard of both data timers, "
                      "notification iff the status changed)",
-                     "not under contract: ComponentPoolStatusTracker._update_status; freshness BETWEEN events rests on the "
+                     "ComponentPoolStatusTracker._update_status under contract (merged status stream scripted); freshness BETWEEN events rests on the "
                      "library timers firing max_data_age after their last reset"],
     ),
     "C07": dict(
